@@ -11,11 +11,11 @@ CHECKS = {
         'level_text': 'Unbounded deductive proof (Verus) on the verbatim text of Module::assign_api_bindings and its nested process_definition: for every module '
                       'and every declaration sequence each bound resource gets api slot = sum of the needed lengths of the earlier declarations of its group '
                       '(so ranges start at zero, follow declaration order, have no gaps and cannot overlap), buffer addresses get 8-byte offsets in the inline block, '
-                      'unbound declarations get nothing, and nothing else in the module changes. The parameters compile() selects per target (Metal slot counting exactly on Metal, buffer addresses only on request on Vulkan, static samplers take a slot on the HLSL targets, register classes on DirectX only) are proved on the initialiser expression of `binding_params` (wrapped as a function, rewrite X6).',
+                      'unbound declarations get nothing, and nothing else in the module changes. The parameters compile() selects per target (Metal slot counting exactly on Metal, buffer addresses only on request on Vulkan, static samplers take a slot on the HLSL targets, register classes on DirectX only) are proved on the initialiser expression of `binding_params` (wrapped as a function, rewrite X6). build_pipeline hands exactly those parameters to assign_api_bindings, on the module narrowed to the selected pipeline, and exports the module that call returns.',
         'level_note': 'Assumed: TypeRegistry::get_type_layer returns layers[id] (RefCell), TypeLayer::is_object and ObjectType::get_register_type contracts, '
                       'std models of HashMap consuming iteration and slice sort, derived Clone = identity. Machine-arithmetic side conditions are preconditions, not proved of the typer: '
                       'array lengths and per-group totals < 2^28, each declaration listed once, type registry well-formed. Rewrites N1 (or-pattern+guard split), N3 (mut self), '
-                      'N4 (for-loop desugaring) are applied to the extracted text and printed in evidence.',
+                      'N4 (for-loop desugaring), N5 (String + &String) are applied to the extracted text and printed in evidence. Not decided: that compile() passes the selected binding_params on to build_pipeline (the loop uses let-chains, outside Verus).',
     },
     'C10': {
         'engine': 'V+K',
@@ -114,9 +114,9 @@ CHECKS['C05'] = {
     'technique': 'Verus contracts on the HLSL exporter: metadata entry and printed annotation are both functions of the declaration api slot',
     'level_text': 'Unbounded deductive proof (Verus) on the verbatim text of analyse_bindings, GenerateContext::register_binding, generate_register_annotation, generate_vk_binding_annotation and '
                   'append_vk_binding_annotation: every global / constant buffer with an api slot gets exactly one metadata entry, in the bind group of that slot, carrying the slot location, the same-named descriptor kind '
-                  'and the bindless flag, and nothing else is added; the register(..) / [[vk::binding(..)]] annotation printed for the same declaration carries the same index and group.',
+                  'and the bindless flag, and nothing else is added; the register(..) / [[vk::binding(..)]] annotation printed for the same declaration carries the same index and group. build_pipeline (src/compile.rs): every stage of the selected pipeline is reported once, in order, with its kind and thread-group size, and the metadata returned is exactly the pipeline description the exporter produced for the module that was exported (narrowed to the selected pipeline, slots assigned with the binding parameters it was given).',
     'level_note': 'Partial: binding entries only (HLSL: metadata + printed annotations; Metal: the argument-buffer entry analyse_bindings records per declaration - same group, slot location, descriptor kind, bindless flag - and that it lies in one of the four argument buffers the generator declares). NOT decided: descriptor_count of array globals (computed through an un-annotated closure, for which Verus has no postcondition), names (NameMap is opaque), '
-                  'MSL [[id(n)]] members and is_used (generate_pipeline monolith; PipelineBindingLayout::finish only by a bounded Kani harness: reflected bind groups stay positional for 3 argument buffers of 0..2 entries), stage entry points and thread-group sizes (build_pipeline). Assumed: registry getters, Vec::from(array), derived Clone = identity. '
+                  'MSL [[id(n)]] members and is_used (generate_pipeline monolith; PipelineBindingLayout::finish only by a bounded Kani harness: reflected bind groups stay positional for 3 argument buffers of 0..2 entries), stage entry point NAMES (build_pipeline copies the registry name / a fixed Metal name; that the exporter emits that name is not decided). In build_pipeline every compiler stage (select_pipeline, assign_api_bindings, export_to_hlsl / export_to_msl, the Metal compiler) is an uninterpreted function of its inputs; String + &String is rewritten to a function with the assumed meaning of the operator (rewrite N5); format! of the error printer is assumed to have no precondition. Assumed: registry getters, Vec::from(array), derived Clone = identity. '
                   'Preconditions: ids in range, bind group index < 2^28.',
 }
 
